@@ -1,6 +1,7 @@
 #!/bin/bash
 # usage: fuzz/campaign.sh <ID>   coverage-guided campaign for one property (thorough tier)
-# 16 libFuzzer processes, fixed number of runs each, seeds derived from VERIF_SEED; fresh corpus directories.
+# 16 libFuzzer processes, a fixed number of runs each (60000) under a wall-clock cap (420 s, whichever comes first),
+# seeds derived from VERIF_SEED; fresh corpus directories.
 # A crash artifact is replayed strictly, reduced and turned into a replay file by `xv frombytes`.
 set -u
 ID="$1"
@@ -8,7 +9,8 @@ ROOT="$(cd "$(dirname "$0")/.." && pwd)"
 BIN="$ROOT/fuzz/target/x86_64-unknown-linux-gnu/release/prop"
 XV="$ROOT/.target/debug/xv"
 [ -x "$BIN" ] || { echo "libFuzzer target not built: campaign skipped"; exit 0; }
-RUNS="${VERIF_FUZZ_RUNS:-150000}"
+RUNS="${VERIF_FUZZ_RUNS:-60000}"
+MAXT="${VERIF_FUZZ_MAX_S:-420}"
 PROCS="${VERIF_FUZZ_PROCS:-16}"
 SEED="${VERIF_SEED:-20260922}"
 WORK="$ROOT/fuzz/corpus-run/$ID"
@@ -18,7 +20,7 @@ MAXLEN=$(( $("$XV" maxlen "$ID") * 4 ))
 t0=$(date +%s)
 for k in $(seq 1 "$PROCS"); do
   mkdir -p "$WORK/c$k"
-  XV_PROP="$ID" VERIF_ROOT="$ROOT" ASAN_OPTIONS=detect_leaks=0:abort_on_error=1 "$BIN" -runs="$RUNS" -seed=$(( SEED * 64 + k )) -len_control=0 -max_len="$MAXLEN" \
+  XV_PROP="$ID" VERIF_ROOT="$ROOT" ASAN_OPTIONS=detect_leaks=0:abort_on_error=1 "$BIN" -runs="$RUNS" -max_total_time="$MAXT" -seed=$(( SEED * 64 + k )) -len_control=0 -max_len="$MAXLEN" \
      -rss_limit_mb=3000 -timeout=60 -artifact_prefix="$ART/p$k-" -print_final_stats=1 "$WORK/c$k" "$ROOT/fuzz/seeds" >"$WORK/log$k.txt" 2>&1 &
 done
 wait
